@@ -234,7 +234,7 @@ def run_case(case):
     # evaluation (fixed mixing measured at 0.24 of that bound), so 5x that allowance keeps the margin >= 5x while a stale
     # or sign-flipped force is >= 1e-3 eV/A
     tolF = 1e4 * (eps_eff + EPS_REF) * A + 1e-9
-    tolE = 20 * (eps_eff + EPS_REF) * A + 1e-9
+    tolE = 100 * (eps_eff + EPS_REF) * A + 1e-9  # C04's 20 eps_eff A, same x5 allowance (SP2 at its 1e-7 floor: 6.7 eps_eff seen)
     for i in idx:
         sp = run.single_point(S, rec[i]["xb"], _settings(case, cold=True), charges=ch, mult=1)
         if sp["notconverged"] is not None and bool(np.any(sp["notconverged"])):
